@@ -837,3 +837,88 @@ func isStringType(t types.Type) bool {
 	b, ok := t.Underlying().(*types.Basic)
 	return ok && b.Kind() == types.String
 }
+
+// ---------------------------------------------------------------- KEY8
+
+// KEY8: in every key of the index layout that is written, sought or used as a
+// scan bound, what follows the value marker is the output of the library's
+// order-preserving encoder (and, in stored keys, the document id) - never raw
+// bytes of the value. A hand-written "fast path" that copies a string into the
+// key skips the encoder's escaping (0x00 / 0xFF), so keys stop sorting like the
+// values compare.
+func ruleKEY8(c *Ctx) []Ob {
+	o := newObs(c, "KEY8")
+	m := c.keyModel()
+	r := c.Roles()
+	if r.IndexSkel == "" {
+		o.add(UNDECIDED, "index layout", "-", "the key layout of index entries was not identified")
+		return o.list
+	}
+	// the literal that introduces the value: the last literal part of the stored layout
+	marker := ""
+	for _, s := range m.sinks {
+		if s.Op != "Set" {
+			continue
+		}
+		for _, t := range s.Tmpls {
+			t = t.norm()
+			if t.skeleton() != r.IndexSkel {
+				continue
+			}
+			for _, p := range t {
+				if p.K == pLit {
+					marker = p.S
+				}
+			}
+		}
+	}
+	if marker == "" {
+		o.add(UNDECIDED, "index layout", "-", "no literal value marker in the index layout %s", r.IndexSkel)
+		return o.list
+	}
+	n := 0
+	for _, s := range m.sinks {
+		if s.Op == "Get" || s.Op == "TrimPrefix" {
+			continue
+		}
+		for _, t := range s.Tmpls {
+			t = stripSentinel(t.norm())
+			// position of the marker
+			at := -1
+			for i, p := range t {
+				if p.K == pLit && strings.HasSuffix(p.S, marker) {
+					at = i
+				}
+			}
+			if at < 0 {
+				continue
+			}
+			n++
+			key := sinkKey(c, s) + " value part of " + t.skeleton()
+			pos := relPath(c, s.Call.Pos())
+			bad := ""
+			rest := t[at+1:]
+			for i, p := range rest {
+				last := i == len(rest)-1
+				switch {
+				case p.K == pEnc:
+				case p.K == pVar && last && i > 0 && (s.Op == "Set" || s.Op == "Delete"):
+					// the document id that ends a stored key
+				case p.K == pVar && last && i == 0 && (s.Op == "Set" || s.Op == "Delete"):
+					bad = "the value marker is followed by <" + p.S + "> without an encoded value"
+				default:
+					bad = Tmpl{p}.String()
+				}
+			}
+			if bad != "" {
+				o.add(VIOLATED, key, pos, "after %q the key %s contains %s, which is not the output of the order-preserving encoder: raw value bytes in a key are neither escaped nor self-delimiting, and keys stop sorting in comparison order", marker, t, bad)
+			} else {
+				o.add(OK, key, pos, "after %q only encoder output (and the document id of stored keys)", marker)
+			}
+		}
+	}
+	if n == 0 {
+		o.add(UNDECIDED, "index keys", "-", "no key of the index layout carries the value marker %q", marker)
+	}
+	return o.list
+}
